@@ -249,10 +249,7 @@ func runOracleMachine(c omCase, which string, rec *ev.Recorder) *Failure {
 			own = fresh
 			if v, ok := m.cursor[o]; ok {
 				own = v
-				// a returning oracle whose cursor is older than a new oracle's starting point may start like a new one
-				if m.rebonded[o] && v < m.freshAt[o] {
-					own = m.freshAt[o]
-				}
+
 			}
 			var nonce uint64
 			switch op.NonceSel {
@@ -416,9 +413,12 @@ func runOracleMachine(c omCase, which string, rec *ev.Recorder) *Failure {
 			r := f.RunMsg(sctx, bondMsg(o, c.Stakes[o]))
 			if r.OK() {
 				m.rebonded[o] = true
-				m.freshAt[o] = 0
+				// a cursor older than a new oracle's starting point is dropped at the bond: from then on the oracle
+				// starts, like a new one, at (last observed - 1) as of the moment it votes
 				if lo := k.GetLastObservedEventNonce(ctx); lo >= 1 {
-					m.freshAt[o] = lo - 1
+					if v, ok := m.cursor[o]; ok && v < lo-1 {
+						delete(m.cursor, o)
+					}
 				}
 				if openAttestation(ctx) {
 					st.membershipOpen = true
@@ -468,9 +468,12 @@ func runOracleMachine(c omCase, which string, rec *ev.Recorder) *Failure {
 			if r := f.RunMsg(sctx, bondMsg(o, c.Stakes[o])); r.OK() {
 				st.rebond = true
 				m.rebonded[o] = true
-				m.freshAt[o] = 0
+				// a cursor older than a new oracle's starting point is dropped at the bond: from then on the oracle
+				// starts, like a new one, at (last observed - 1) as of the moment it votes
 				if lo := k.GetLastObservedEventNonce(ctx); lo >= 1 {
-					m.freshAt[o] = lo - 1
+					if v, ok := m.cursor[o]; ok && v < lo-1 {
+						delete(m.cursor, o)
+					}
 				}
 				if open {
 					st.membershipOpen = true
